@@ -150,6 +150,9 @@ type Exec struct {
 	ErrLogs []ErrLog // Error-level log lines (x/staking logs swallowed hook errors)
 
 	Oracles []Oracle
+	// OnRejected, when set, is called with the transaction's branch context after a message
+	// handler returned an error or panicked, before the branch is discarded.
+	OnRejected func(ctx sdk.Context, res *Res)
 
 	// history-derived ledgers (never read back from the module's store)
 	L Ledger
@@ -290,6 +293,9 @@ func (x *Exec) tx(f func(ctx sdk.Context) error) (res Res) {
 	if res.OK {
 		write()
 		res.Events = em.Events()
+	} else if x.OnRejected != nil {
+		// the handler's own working state after it refused the request (before baseapp discards it)
+		x.OnRejected(cctx, &res)
 	}
 	return res
 }
